@@ -5,11 +5,57 @@ Import ListNotations.
 Open Scope N_scope.
 Local Arguments N.eqb : simpl never.
 
-Lemma prefixb_refl_app : forall a b, prefixb a (a ++ b) = true.
-Proof. induction a as [|x a IH]; intros b; cbn; [reflexivity|]. rewrite N.eqb_refl. cbn. apply IH. Qed.
+(* ---- split / comps ---- *)
+Lemma split_nonempty : forall p, split p <> [].
+Proof.
+  induction p as [|c p IH]; cbn [split]; [discriminate|].
+  destruct (N.eqb c c_slash); [discriminate|]. destruct (split p); [congruence|discriminate].
+Qed.
 
-Lemma skipn_app_len : forall (a b : str), skipn (length a) (a ++ b) = b.
-Proof. induction a as [|x a IH]; intros b; cbn; [reflexivity|apply IH]. Qed.
+Lemma split_app_slash : forall a b, split (a ++ c_slash :: b) = split a ++ split b.
+Proof.
+  induction a as [|c a IH]; intros b.
+  - cbn [app split]. rewrite N.eqb_refl. reflexivity.
+  - cbn [app split]. destruct (N.eqb c c_slash); [now rewrite IH|].
+    rewrite IH. destruct (split a) as [|h t] eqn:E; [exfalso; exact (split_nonempty a E)|]. reflexivity.
+Qed.
+
+Lemma comps_app_slash : forall a b, comps (a ++ c_slash :: b) = comps a ++ comps b.
+Proof. intros a b. unfold comps. rewrite split_app_slash. apply filter_app. Qed.
+
+Lemma split_noslash : forall c, existsb (N.eqb c_slash) c = false -> split c = [c].
+Proof.
+  induction c as [|x c IH]; intros H; [reflexivity|].
+  cbn [existsb] in H. apply orb_false_iff in H as [H1 H2].
+  cbn [split]. rewrite N.eqb_sym, H1. now rewrite (IH H2).
+Qed.
+
+Lemma clean_parts : forall c, clean c = true ->
+  keep c = true /\ existsb (N.eqb c_slash) c = false /\ existsb (N.eqb c_bslash) c = false.
+Proof.
+  intros c H. unfold clean in H. apply andb_true_iff in H as [H H3]. apply andb_true_iff in H as [H1 H2].
+  apply negb_true_iff in H2, H3. auto.
+Qed.
+
+Lemma comps_clean1 : forall c, clean c = true -> comps c = [c].
+Proof.
+  intros c H. destruct (clean_parts c H) as (K & S & _). unfold comps. rewrite (split_noslash c S).
+  cbn [filter]. now rewrite K.
+Qed.
+
+Lemma comps_join_clean : forall cs, clean_list cs = true -> comps (join_slash cs) = cs.
+Proof.
+  induction cs as [|c t IH]; intros H; [reflexivity|].
+  cbn [clean_list forallb] in H. apply andb_true_iff in H as [Hc Ht].
+  destruct t as [|d t'].
+  - cbn [join_slash]. now apply comps_clean1.
+  - change (join_slash (c :: d :: t')) with (c ++ c_slash :: join_slash (d :: t')).
+    rewrite comps_app_slash, (comps_clean1 c Hc), (IH Ht). reflexivity.
+Qed.
+
+(* ---- unbackslash ---- *)
+Lemma unbackslash_app : forall a b, unbackslash (a ++ b) = unbackslash a ++ unbackslash b.
+Proof. intros. unfold unbackslash. apply map_app. Qed.
 
 Lemma unbackslash_id : forall p, existsb (N.eqb c_bslash) p = false -> unbackslash p = p.
 Proof.
@@ -18,94 +64,196 @@ Proof.
   unfold unbackslash. cbn [map]. fold (unbackslash p). rewrite N.eqb_sym in H1. rewrite H1. f_equal. now apply IH.
 Qed.
 
-(* a relative path does not start with the (absolute) current directory *)
-Lemma rel_not_under_cwd : forall cwd rel, wf_cwd cwd = true -> wf_rel rel = true -> prefixb cwd rel = false.
+Lemma no_bslash_join : forall cs, clean_list cs = true -> existsb (N.eqb c_bslash) (join_slash cs) = false.
 Proof.
-  intros cwd rel Hc Hr. destruct cwd as [|c [|d cw]]; try discriminate.
-  destruct rel as [|r rest]; [discriminate|].
-  cbn in Hc, Hr. apply andb_true_iff in Hc as [Hc _]. apply N.eqb_eq in Hc. subst c.
-  apply andb_true_iff in Hr as [Hr _]. apply andb_true_iff in Hr as [Hr _]. apply negb_true_iff in Hr.
-  cbn. rewrite N.eqb_sym, Hr. reflexivity.
+  induction cs as [|c t IH]; intros H; [reflexivity|].
+  cbn [clean_list forallb] in H. apply andb_true_iff in H as [Hc Ht].
+  destruct (clean_parts c Hc) as (_ & _ & B).
+  destruct t as [|d t']; [exact B|].
+  change (join_slash (c :: d :: t')) with (c ++ c_slash :: join_slash (d :: t')).
+  rewrite existsb_app. apply orb_false_iff. split; [exact B|]. cbn [existsb]. apply orb_false_iff. split; [reflexivity|exact (IH Ht)].
 Qed.
 
-Lemma strip_dot_rel : forall rel, wf_rel rel = true -> strip_dot_prefix rel = rel.
+Lemma unbackslash_slash : unbackslash [c_slash] = [c_slash].
+Proof. reflexivity. Qed.
+
+(* ---- joining a root with what lies below it ---- *)
+Lemma ends_slash_split : forall a, ends_slash a = true -> exists a', a = a' ++ [c_slash].
 Proof.
-  intros rel H. destruct rel as [|a [|b rest]]; try reflexivity.
-  cbn in H. apply andb_true_iff in H as [_ H]. apply negb_true_iff in H.
-  cbn. now rewrite H.
+  intros a H. unfold ends_slash in H. destruct (rev a) as [|c r] eqn:E; [discriminate|].
+  apply N.eqb_eq in H. subst c. exists (rev r).
+  rewrite <- (rev_involutive a), E. reflexivity.
 Qed.
 
-Lemma norm_rel : forall cwd rel, wf_cwd cwd = true -> wf_rel rel = true -> norm cwd rel = rel.
+Lemma comps_pjoin : forall a b, comps (pjoin a b) = comps a ++ comps b.
 Proof.
-  intros cwd rel Hc Hr. unfold norm, strip_cwd.
-  rewrite (rel_not_under_cwd cwd rel Hc Hr).
-  destruct cwd as [|c0 cw]; [discriminate|].
-  rewrite (strip_dot_rel rel Hr).
-  assert (Hb : existsb (N.eqb c_bslash) rel = false).
-  { destruct rel as [|c rest]; [discriminate|]. cbn [wf_rel] in Hr.
-    apply andb_true_iff in Hr as [Hr _]. apply andb_true_iff in Hr as [_ Hr]. now apply negb_true_iff in Hr. }
-  destruct rel as [|d [|e rest]]; [discriminate| |now apply unbackslash_id].
-  (* single character: it is not the dot *)
-  cbn [wf_rel] in Hr. apply andb_true_iff in Hr as [_ Hr]. apply negb_true_iff in Hr. rewrite andb_true_r in Hr.
-  rewrite Hr. now apply unbackslash_id.
+  intros a b. unfold pjoin. destruct (ends_slash a) eqn:E.
+  - destruct (ends_slash_split a E) as [a' ->]. rewrite <- app_assoc. cbn [app].
+    rewrite comps_app_slash.
+    replace (a' ++ [c_slash]) with (a' ++ c_slash :: []) by reflexivity.
+    rewrite comps_app_slash. cbn. now rewrite app_nil_r.
+  - apply comps_app_slash.
 Qed.
 
-Lemma norm_dot_slash : forall cwd rel, wf_cwd cwd = true -> wf_rel rel = true ->
-  norm cwd (c_dot :: c_slash :: rel) = rel.
+Lemma unbackslash_pjoin : forall a b, existsb (N.eqb c_bslash) b = false ->
+  comps (unbackslash (pjoin a b)) = comps (unbackslash a) ++ comps b.
 Proof.
-  intros cwd rel Hc Hr. unfold norm, strip_cwd.
-  assert (Hp : prefixb cwd (c_dot :: c_slash :: rel) = false).
-  { destruct cwd as [|c [|d cw]]; try discriminate. cbn in Hc. apply andb_true_iff in Hc as [Hc _].
-    apply N.eqb_eq in Hc. subst c. reflexivity. }
-  rewrite Hp. destruct cwd as [|c0 cw]; [discriminate|].
-  cbn [strip_dot_prefix]. rewrite !N.eqb_refl. cbn [andb orb].
-  pose proof (norm_rel (c0 :: cw) rel Hc Hr) as H. unfold norm, strip_cwd in H.
-  rewrite (rel_not_under_cwd (c0 :: cw) rel Hc Hr) in H. rewrite (strip_dot_rel rel Hr) in H. exact H.
+  intros a b Hb. unfold pjoin. destruct (ends_slash a) eqn:E.
+  - destruct (ends_slash_split a E) as [a' ->].
+    rewrite !unbackslash_app, unbackslash_slash, (unbackslash_id b Hb).
+    rewrite <- app_assoc. cbn [app]. rewrite comps_app_slash.
+    replace (unbackslash a' ++ [c_slash]) with (unbackslash a' ++ c_slash :: []) by reflexivity.
+    rewrite comps_app_slash. cbn. now rewrite app_nil_r.
+  - rewrite unbackslash_app. change (unbackslash (c_slash :: b)) with (c_slash :: unbackslash b).
+    rewrite (unbackslash_id b Hb). apply comps_app_slash.
 Qed.
 
-Lemma norm_abs : forall cwd rel, wf_cwd cwd = true -> wf_rel rel = true ->
-  norm cwd (join cwd rel) = rel.
+Lemma is_abs_app : forall a b, a <> [] -> is_abs (a ++ b) = is_abs a.
+Proof. intros a b H. destruct a; [congruence|reflexivity]. Qed.
+
+Lemma is_abs_pjoin : forall a b, a <> [] -> is_abs (pjoin a b) = is_abs a.
+Proof. intros a b H. unfold pjoin. destruct (ends_slash a); now apply is_abs_app. Qed.
+
+Lemma unbackslash_nonempty : forall a, a <> [] -> unbackslash a <> [].
+Proof. intros a H. destruct a; [congruence|discriminate]. Qed.
+
+Lemma is_abs_unbackslash_pjoin : forall a b, a <> [] ->
+  is_abs (unbackslash (pjoin a b)) = is_abs (unbackslash a).
 Proof.
-  intros cwd rel Hc Hr. unfold norm, strip_cwd, join.
-  rewrite prefixb_refl_app, skipn_app_len. rewrite N.eqb_refl. cbn [orb].
-  destruct cwd as [|c0 cw]; [discriminate|].
-  destruct rel as [|r rest] eqn:Er; [discriminate|]. rewrite <- Er in *.
-  pose proof (norm_rel (c0 :: cw) rel Hc Hr) as H. unfold norm, strip_cwd in H.
-  rewrite (rel_not_under_cwd (c0 :: cw) rel Hc Hr) in H. exact H.
+  intros a b H. unfold pjoin. destruct (ends_slash a); rewrite unbackslash_app;
+    apply is_abs_app; now apply unbackslash_nonempty.
 Qed.
 
-(* every spelling of a root that contains the entry normalises to the project-relative path *)
-Theorem norm_collapses : forall cwd s rel,
-  wf_cwd cwd = true -> wf_rel rel = true -> in_root s rel = true ->
-  norm cwd (walked cwd s rel) = rel.
+(* ---- strip_pref ---- *)
+Lemma str_eqb_refl : forall a, str_eqb a a = true.
+Proof. induction a as [|x a IH]; cbn; [reflexivity|]. now rewrite N.eqb_refl. Qed.
+
+Lemma strip_pref_app : forall a b, strip_pref a (a ++ b) = Some b.
+Proof. induction a as [|x a IH]; intros b; cbn; [reflexivity|]. now rewrite str_eqb_refl. Qed.
+
+(* a joined list of clean components does not start with a separator of either kind *)
+Lemma join_clean_not_abs : forall cs, clean_list cs = true -> is_abs (unbackslash (join_slash cs)) = false.
 Proof.
-  intros cwd s rel Hc Hr _. destruct s; cbn [walked];
-    first [apply norm_dot_slash | apply norm_abs | apply norm_rel]; assumption.
+  intros cs H. rewrite (unbackslash_id _ (no_bslash_join cs H)).
+  destruct cs as [|c t]; [reflexivity|].
+  cbn [clean_list forallb] in H. apply andb_true_iff in H as [Hc _].
+  destruct (clean_parts c Hc) as (K & S & _).
+  destruct c as [|x c']; [discriminate|].
+  cbn [existsb] in S. apply orb_false_iff in S as [S _].
+  destruct t; cbn [join_slash app is_abs]; now rewrite N.eqb_sym.
+Qed.
+
+(* ---- the normaliser on a relative path: its components, joined ---- *)
+Lemma norm_relative : forall cwd p, is_abs p = false -> is_abs (unbackslash p) = false ->
+  norm cwd p = join_slash (comps (unbackslash p)).
+Proof. intros cwd p H1 H2. unfold norm, strip_cwd. rewrite H1, H2. reflexivity. Qed.
+
+Lemma is_abs_unbackslash_false : forall p, is_abs (unbackslash p) = false -> is_abs p = false.
+Proof.
+  intros p H. destruct p as [|c p]; [reflexivity|]. cbn in *.
+  destruct (N.eqb c c_bslash) eqn:E; [discriminate|exact H].
+Qed.
+
+(* every relative spelling of a root, whatever stray separators and dots it carries, normalises an entry
+   below it to the project-relative path *)
+Theorem norm_walked_rel : forall cwd root rc below,
+  spells_rel root rc -> clean_list below = true ->
+  norm cwd (walked root below) = join_slash (rc ++ below).
+Proof.
+  intros cwd root rc below (Ha & Hne & Hc) Hb. unfold walked.
+  destruct below as [|b bs] eqn:Eb.
+  - rewrite app_nil_r. rewrite norm_relative; [now rewrite Hc| now apply is_abs_unbackslash_false | exact Ha].
+  - rewrite <- Eb in *. assert (Hbs : existsb (N.eqb c_bslash) (join_slash below) = false) by now apply no_bslash_join.
+    rewrite norm_relative.
+    + rewrite (unbackslash_pjoin root _ Hbs), Hc, (comps_join_clean below Hb). reflexivity.
+    + apply is_abs_unbackslash_false. now rewrite is_abs_unbackslash_pjoin.
+    + now rewrite is_abs_unbackslash_pjoin.
+Qed.
+
+(* the same for every absolute spelling of a root below the current directory *)
+Theorem norm_walked_abs : forall cc root rc below,
+  wf_cwd_comps cc = true -> spells_abs cc root rc -> clean_list rc = true -> clean_list below = true ->
+  norm (cwd_of cc) (walked root below) = join_slash (rc ++ below).
+Proof.
+  intros cc root rc below Hcc (Ha & Hnb & Hc) Hrc Hb.
+  apply andb_true_iff in Hcc as [Hcc _].
+  assert (Hroot : root <> []) by (destruct root; [discriminate|discriminate]).
+  assert (Hcwd : comps (cwd_of cc) = cc).
+  { unfold cwd_of. change (c_slash :: join_slash cc) with ([] ++ c_slash :: join_slash cc).
+    rewrite comps_app_slash. cbn [comps split filter keep app]. now apply comps_join_clean. }
+  assert (Hall : clean_list (rc ++ below) = true).
+  { unfold clean_list in *. rewrite forallb_app. now rewrite Hrc, Hb. }
+  assert (Hw : is_abs (walked root below) = true /\ comps (walked root below) = cc ++ rc ++ below).
+  { unfold walked. destruct below as [|b bs] eqn:Eb.
+    - rewrite app_nil_r. auto.
+    - rewrite <- Eb in *. split; [now rewrite is_abs_pjoin|].
+      rewrite comps_pjoin, Hc, (comps_join_clean below Hb). now rewrite app_assoc. }
+  destruct Hw as [Hw1 Hw2].
+  unfold norm, strip_cwd. rewrite Hw1, Hcwd, Hw2, strip_pref_app.
+  rewrite (join_clean_not_abs _ Hall). cbn [app].
+  rewrite (unbackslash_id _ (no_bslash_join _ Hall)). now rewrite comps_join_clean.
 Qed.
 
 (* any decision that reads the path only through the normaliser is spelling-invariant *)
-Theorem invariant_through_norm : forall (A : Type) (site : str -> A) cwd s1 s2 rel,
-  wf_cwd cwd = true -> wf_rel rel = true -> in_root s1 rel = true -> in_root s2 rel = true ->
-  site (norm cwd (walked cwd s1 rel)) = site (norm cwd (walked cwd s2 rel)).
-Proof. intros A site cwd s1 s2 rel Hc Hr H1 H2. now rewrite !norm_collapses. Qed.
-
-Theorem key_invariant : forall cwd s1 s2 rel,
-  wf_cwd cwd = true -> wf_rel rel = true -> in_root s1 rel = true -> in_root s2 rel = true ->
-  key cwd (walked cwd s1 rel) = key cwd (walked cwd s2 rel).
-Proof. intros. unfold key. now rewrite !norm_collapses. Qed.
-
-(* the project root itself (walked as "." or "./" or the absolute directory) normalises to the empty path *)
-Lemma norm_root : forall cwd, wf_cwd cwd = true ->
-  norm cwd [c_dot] = [] /\ norm cwd [c_dot; c_slash] = [] /\ norm cwd cwd = [].
+Theorem invariant_through_norm : forall (A : Type) (site : str -> A) cc r1 rc1 b1 r2 rc2 b2,
+  wf_cwd_comps cc = true ->
+  (spells_rel r1 rc1 \/ (spells_abs cc r1 rc1 /\ clean_list rc1 = true)) ->
+  (spells_rel r2 rc2 \/ (spells_abs cc r2 rc2 /\ clean_list rc2 = true)) ->
+  clean_list b1 = true -> clean_list b2 = true ->
+  rc1 ++ b1 = rc2 ++ b2 ->
+  site (norm (cwd_of cc) (walked r1 b1)) = site (norm (cwd_of cc) (walked r2 b2)).
 Proof.
-  intros cwd Hc. unfold norm, strip_cwd.
-  assert (H1 : prefixb cwd [c_dot] = false).
-  { destruct cwd as [|c [|d cw]]; try discriminate. cbn in Hc. apply andb_true_iff in Hc as [Hc _]. apply N.eqb_eq in Hc. now subst. }
-  assert (H2 : prefixb cwd [c_dot; c_slash] = false).
-  { destruct cwd as [|c [|d cw]]; try discriminate. cbn in Hc. apply andb_true_iff in Hc as [Hc _]. apply N.eqb_eq in Hc. now subst. }
-  rewrite H1, H2. destruct cwd as [|c0 cw] eqn:E; [discriminate|]. rewrite <- E.
-  repeat split; try reflexivity.
-  assert (P1 : prefixb cwd cwd = true) by (rewrite <- (app_nil_r cwd) at 2; apply prefixb_refl_app).
-  assert (P2 : skipn (length cwd) cwd = []) by (rewrite <- (app_nil_r cwd) at 2; apply skipn_app_len).
-  rewrite P1, P2. reflexivity.
+  intros A site cc r1 rc1 b1 r2 rc2 b2 Hcc H1 H2 Hb1 Hb2 E.
+  assert (N1 : norm (cwd_of cc) (walked r1 b1) = join_slash (rc1 ++ b1)).
+  { destruct H1 as [H1|[H1 C1]]; [now apply norm_walked_rel|now apply norm_walked_abs]. }
+  assert (N2 : norm (cwd_of cc) (walked r2 b2) = join_slash (rc2 ++ b2)).
+  { destruct H2 as [H2|[H2 C2]]; [now apply norm_walked_rel|now apply norm_walked_abs]. }
+  now rewrite N1, N2, E.
+Qed.
+
+(* the normaliser is idempotent on what it produces for entries of the project *)
+Lemma norm_fixed_point : forall cwd cs, clean_list cs = true -> norm cwd (join_slash cs) = join_slash cs.
+Proof.
+  intros cwd cs H. pose proof (join_clean_not_abs cs H) as Ha.
+  rewrite norm_relative; [|now apply is_abs_unbackslash_false|exact Ha].
+  rewrite (unbackslash_id _ (no_bslash_join cs H)). now rewrite comps_join_clean.
+Qed.
+
+Lemma comps_cwd_of : forall cc, clean_list cc = true -> comps (cwd_of cc) = cc.
+Proof.
+  intros cc H. unfold cwd_of. change (c_slash :: join_slash cc) with ([] ++ c_slash :: join_slash cc).
+  rewrite comps_app_slash. cbn [comps split filter keep app]. now apply comps_join_clean.
+Qed.
+
+Lemma key_invariant : forall cc r1 rc1 b1 r2 rc2 b2,
+  wf_cwd_comps cc = true ->
+  (spells_rel r1 rc1 \/ (spells_abs cc r1 rc1 /\ clean_list rc1 = true)) ->
+  (spells_rel r2 rc2 \/ (spells_abs cc r2 rc2 /\ clean_list rc2 = true)) ->
+  clean_list b1 = true -> clean_list b2 = true ->
+  rc1 ++ b1 = rc2 ++ b2 ->
+  key (cwd_of cc) (walked r1 b1) = key (cwd_of cc) (walked r2 b2).
+Proof. intros. unfold key. now apply (invariant_through_norm str (fun x => x) cc r1 rc1 b1 r2 rc2 b2). Qed.
+
+(* the project root itself, however spelled, normalises to the empty path *)
+Lemma norm_root : forall cc, wf_cwd_comps cc = true ->
+  norm (cwd_of cc) [c_dot] = [] /\ norm (cwd_of cc) [c_dot; c_slash] = [] /\
+  norm (cwd_of cc) (cwd_of cc) = [] /\ norm (cwd_of cc) (cwd_of cc ++ [c_slash]) = [].
+Proof.
+  intros cc Hcc. pose proof Hcc as Hcc'. apply andb_true_iff in Hcc' as [Hcl Hne].
+  assert (R1 : spells_rel [c_dot] []) by (repeat split; discriminate).
+  assert (R2 : spells_rel [c_dot; c_slash] []) by (repeat split; discriminate).
+  assert (NB : existsb (N.eqb c_bslash) (cwd_of cc) = false).
+  { unfold cwd_of. cbn [existsb]. apply orb_false_iff. split; [reflexivity|now apply no_bslash_join]. }
+  assert (A1 : spells_abs cc (cwd_of cc) []).
+  { repeat split; [exact NB|]. rewrite app_nil_r. now apply comps_cwd_of. }
+  assert (A2 : spells_abs cc (cwd_of cc ++ [c_slash]) []).
+  { repeat split.
+    - rewrite existsb_app. apply orb_false_iff. split; [exact NB|reflexivity].
+    - replace (cwd_of cc ++ [c_slash]) with (cwd_of cc ++ c_slash :: []) by reflexivity.
+      rewrite comps_app_slash, app_nil_r. cbn. rewrite app_nil_r. now apply comps_cwd_of. }
+  split; [|split; [|split]].
+  - exact (norm_walked_rel (cwd_of cc) [c_dot] [] [] R1 eq_refl).
+  - exact (norm_walked_rel (cwd_of cc) [c_dot; c_slash] [] [] R2 eq_refl).
+  - exact (norm_walked_abs cc (cwd_of cc) [] [] Hcc A1 eq_refl eq_refl).
+  - exact (norm_walked_abs cc (cwd_of cc ++ [c_slash]) [] [] Hcc A2 eq_refl eq_refl).
 Qed.
